@@ -9,6 +9,7 @@ import (
 
 	"pgregory.net/rapid"
 
+	"verifharness/jsonx"
 	"verifharness/mrogen"
 )
 
@@ -203,4 +204,119 @@ func TestKnownTwinMapCall(t *testing.T) {
 		p.Top = &mrogen.Call{Id: "TOP", Callee: "TOP", Bindings: []mrogen.Binding{{Param: "f", E: lit([]any{[]any{num(5)}}, tIntArr2)}}}
 		return p
 	})
+}
+
+// A pipeline mapped over a collection that is empty at run time: the stage
+// inside that does not use the element runs all the same.
+func TestKnownMappedPipelineOverEmpty(t *testing.T) {
+	knownPresent(t, "C03/stage-of-mapped-pipeline-runs-for-empty-collection", func(a int) *mrogen.Program {
+		p := &mrogen.Program{U: &mrogen.Universe{Structs: []*mrogen.Struct{{Name: "S0", Fields: []mrogen.Field{{Name: "f", T: tInt}}}}}}
+		p.Stages = []*mrogen.Stage{
+			st("GEN", []mrogen.Param{pm("p", tInt)}, []mrogen.Param{pm("xs", tIntArr)}),
+			st("INDEP", []mrogen.Param{pm("y", tInt)}, []mrogen.Param{pm("o", tInt)}),
+			st("DEP", []mrogen.Param{pm("x", tInt)}, []mrogen.Param{pm("o", tInt)}),
+		}
+		inner := &mrogen.Pipeline{Name: "INNER", Ins: []mrogen.Param{pm("x", tInt), pm("y", tInt)}, Outs: []mrogen.Param{pm("a", tInt), pm("b", tInt)},
+			Calls: []*mrogen.Call{
+				{Id: "INDEP", Callee: "INDEP", Bindings: []mrogen.Binding{{Param: "y", E: self("y")}}},
+				{Id: "DEP", Callee: "DEP", Bindings: []mrogen.Binding{{Param: "x", E: self("x")}}}},
+			Ret: []mrogen.Binding{{Param: "a", E: out("INDEP", "o")}, {Param: "b", E: out("DEP", "o")}}}
+		top := &mrogen.Pipeline{Name: "TOP", Ins: []mrogen.Param{pm("n", tInt)}, Outs: []mrogen.Param{pm("a", tIntArr), pm("b", tIntArr)},
+			Calls: []*mrogen.Call{
+				{Id: "GEN", Callee: "GEN", Bindings: []mrogen.Binding{{Param: "p", E: self("n")}}},
+				{Id: "INNER", Callee: "INNER", Mapped: true, Bindings: []mrogen.Binding{
+					{Param: "x", E: mrogen.Split{E: out("GEN", "xs")}}, {Param: "y", E: lit(num(5), tInt)}}}},
+			Ret: []mrogen.Binding{{Param: "a", E: out("INNER", "a")}, {Param: "b", E: out("INNER", "b")}}}
+		p.Pipelines = []*mrogen.Pipeline{inner, top}
+		// (GEN returns arrays of length 0..5 depending on its argument: some
+		// of the twelve tries hit the empty one)
+		p.Top = &mrogen.Call{Id: "TOP", Callee: "TOP", Bindings: []mrogen.Binding{{Param: "n", E: lit(num(a), tInt)}}}
+		return p
+	})
+}
+
+// A pipeline mapped over a typed map that contains a call with a typed-map
+// output: mrp panics ("map<map> is not allowed!") when it records the final
+// state.
+func TestKnownMappedPipelineOverMapWithMapMember(t *testing.T) {
+	knownPresent(t, "C01/runtime-panic:TypeLookup.GetMap", func(a int) *mrogen.Program {
+		tMapStr := ty{Base: "string", Map: 1}
+		p := &mrogen.Program{U: &mrogen.Universe{Structs: []*mrogen.Struct{{Name: "S0", Fields: []mrogen.Field{{Name: "f", T: tInt}}}}}}
+		p.Stages = []*mrogen.Stage{st("M", []mrogen.Param{pm("p", tInt)}, []mrogen.Param{pm("o", tInt), pm("res", tMapStr)})}
+		mid := &mrogen.Pipeline{Name: "MID", Ins: []mrogen.Param{pm("x", tInt)}, Outs: []mrogen.Param{pm("o", tInt), pm("m", tMapStr)},
+			Calls: []*mrogen.Call{{Id: "M", Callee: "M", Bindings: []mrogen.Binding{{Param: "p", E: self("x")}}}},
+			Ret:   []mrogen.Binding{{Param: "o", E: out("M", "o")}, {Param: "m", E: out("M", "res")}}}
+		inner := &mrogen.Pipeline{Name: "INNER", Ins: []mrogen.Param{pm("x", tInt)}, Outs: []mrogen.Param{pm("r", tInt)},
+			Calls: []*mrogen.Call{{Id: "MID", Callee: "MID", Bindings: []mrogen.Binding{{Param: "x", E: self("x")}}}},
+			Ret:   []mrogen.Binding{{Param: "r", E: out("MID", "o")}}}
+		top := &mrogen.Pipeline{Name: "TOP", Ins: []mrogen.Param{{Name: "xs", T: ty{Base: "int", Map: 1}, SplitSrc: true}}, Outs: []mrogen.Param{pm("r", ty{Base: "int", Map: 1})},
+			Calls: []*mrogen.Call{{Id: "INNER", Callee: "INNER", Mapped: true, Bindings: []mrogen.Binding{{Param: "x", E: mrogen.Split{E: self("xs")}}}}},
+			Ret:   []mrogen.Binding{{Param: "r", E: out("INNER", "r")}}}
+		p.Pipelines = []*mrogen.Pipeline{mid, inner, top}
+		m := jsonxObj("ka", num(a), "kb", num(a+1))
+		p.Top = &mrogen.Call{Id: "TOP", Callee: "TOP", Bindings: []mrogen.Binding{{Param: "xs", E: lit(m, ty{Base: "int", Map: 1})}}}
+		return p
+	})
+}
+
+// An output of a mapped pipeline that is a constant (here: of a call
+// disabled by a constant flag) is left as an unresolved merge expression.
+func TestKnownMappedPipelineConstantOutput(t *testing.T) {
+	knownPresent(t, "C01/unresolved-merge-expression", func(a int) *mrogen.Program {
+		p := &mrogen.Program{U: &mrogen.Universe{Structs: []*mrogen.Struct{{Name: "S0", Fields: []mrogen.Field{{Name: "f", T: tInt}}}}}}
+		p.Stages = []*mrogen.Stage{st("A", []mrogen.Param{pm("p", tInt)}, []mrogen.Param{pm("o", tInt)}),
+			st("G", []mrogen.Param{pm("p", tInt)}, []mrogen.Param{{Name: "o", T: tIntArr, NonEmpty: true}})}
+		flag := self("off")
+		inner := &mrogen.Pipeline{Name: "INNER", Ins: []mrogen.Param{pm("x", tInt), {Name: "off", T: tBool, Flag: true}}, Outs: []mrogen.Param{pm("r", tInt), pm("d", tInt)},
+			Calls: []*mrogen.Call{
+				{Id: "A", Callee: "A", Bindings: []mrogen.Binding{{Param: "p", E: self("x")}}},
+				{Id: "A_D", Callee: "A", Disabled: &flag, Bindings: []mrogen.Binding{{Param: "p", E: self("x")}}}},
+			Ret: []mrogen.Binding{{Param: "r", E: out("A", "o")}, {Param: "d", E: out("A_D", "o")}}}
+		top := &mrogen.Pipeline{Name: "TOP", Ins: []mrogen.Param{pm("n", tInt)}, Outs: []mrogen.Param{pm("r", tIntArr), pm("d", tIntArr)},
+			Calls: []*mrogen.Call{
+				{Id: "G", Callee: "G", Bindings: []mrogen.Binding{{Param: "p", E: self("n")}}},
+				{Id: "INNER", Callee: "INNER", Mapped: true, Bindings: []mrogen.Binding{
+					{Param: "x", E: mrogen.Split{E: out("G", "o")}}, {Param: "off", E: lit(true, tBool)}}}},
+			Ret: []mrogen.Binding{{Param: "r", E: out("INNER", "r")}, {Param: "d", E: out("INNER", "d")}}}
+		p.Pipelines = []*mrogen.Pipeline{inner, top}
+		p.Top = &mrogen.Call{Id: "TOP", Callee: "TOP", Bindings: []mrogen.Binding{{Param: "n", E: lit(num(a), tInt)}}}
+		return p
+	})
+}
+
+// A pipeline that is called once plainly and once as a map call over a
+// collection produced at run time.
+func TestKnownPipelineMappedAndCalledAgain(t *testing.T) {
+	knownPresent(t, "C01/pipeline-mapped-and-called-again", func(a int) *mrogen.Program {
+		tFlt := ty{Base: "float"}
+		tFltArr := ty{Base: "float", Arr: 1}
+		p := &mrogen.Program{U: &mrogen.Universe{Structs: []*mrogen.Struct{{Name: "S0", Fields: []mrogen.Field{{Name: "f", T: tInt}}}}}}
+		p.Stages = []*mrogen.Stage{
+			st("G", []mrogen.Param{pm("p", tInt)}, []mrogen.Param{pm("o", tFlt), {Name: "val", T: tFltArr, NonEmpty: true}}),
+			st("W", []mrogen.Param{pm("a", tFlt), pm("b", tFlt)}, []mrogen.Param{pm("o", tFlt)})}
+		half := lit(json.Number("0.5"), tFlt)
+		inner := &mrogen.Pipeline{Name: "PL0", Ins: []mrogen.Param{pm("a", tFlt), pm("b", tFlt)}, Outs: []mrogen.Param{pm("out0", tFlt), pm("out1", tFlt)},
+			Calls: []*mrogen.Call{
+				{Id: "W_I", Callee: "W", Bindings: []mrogen.Binding{{Param: "a", E: half}, {Param: "b", E: half}}},
+				{Id: "W", Callee: "W", Bindings: []mrogen.Binding{{Param: "a", E: self("a")}, {Param: "b", E: self("b")}}}},
+			Ret: []mrogen.Binding{{Param: "out0", E: out("W_I", "o")}, {Param: "out1", E: out("W", "o")}}}
+		top := &mrogen.Pipeline{Name: "TOP", Ins: []mrogen.Param{pm("n", tInt)}, Outs: []mrogen.Param{pm("r", tFltArr), pm("s", tFlt)},
+			Calls: []*mrogen.Call{
+				{Id: "G", Callee: "G", Bindings: []mrogen.Binding{{Param: "p", E: self("n")}}},
+				{Id: "PL0", Callee: "PL0", Bindings: []mrogen.Binding{{Param: "a", E: lit(json.Number("0.625"), tFlt)}, {Param: "b", E: out("G", "o")}}},
+				{Id: "PL0_D", Callee: "PL0", Mapped: true, Bindings: []mrogen.Binding{
+					{Param: "a", E: mrogen.Split{E: out("G", "val")}}, {Param: "b", E: mrogen.Split{E: out("G", "val")}}}}},
+			Ret: []mrogen.Binding{{Param: "r", E: out("PL0_D", "out0")}, {Param: "s", E: out("PL0", "out0")}}}
+		p.Pipelines = []*mrogen.Pipeline{inner, top}
+		p.Top = &mrogen.Call{Id: "TOP", Callee: "TOP", Bindings: []mrogen.Binding{{Param: "n", E: lit(num(a), tInt)}}}
+		return p
+	})
+}
+
+func jsonxObj(kv ...any) *jsonx.Obj {
+	o := jsonx.NewObj()
+	for i := 0; i+1 < len(kv); i += 2 {
+		o.Set(kv[i].(string), kv[i+1])
+	}
+	return o
 }
